@@ -3,6 +3,27 @@ From PE2 Require Import Eval Lemmas_Copy Lemmas_DeepCopy Lemmas_Out Lemmas_Const
 Require Import Lia.
 Local Open Scope N_scope.
 
+Lemma own_from_newvar name ty cst c id s cx : newvar_post name ty cst c id s -> nm_get c (s_ctxs s) = Some cx -> x_isrec cx = true -> ownrec id s.
+Proof. intros [p [H _]] E F. eapply cellmeta_ownrec; [exact H|]. cbn. exists cx. auto. Qed.
+Lemma own_from_cellmeta id cl c s cx : cellmeta id cl s -> c_owner cl = c -> nm_get c (s_ctxs s) = Some cx -> x_isrec cx = true -> ownrec id s.
+Proof. intros H <- E F. eapply cellmeta_ownrec; [exact H|]. exists cx. auto. Qed.
+Lemma wr_nonconst_meta id cl s : cellmeta id cl s -> c_const cl = false -> wr id s.
+Proof. intros H C. eapply cellmeta_wr; eauto. Qed.
+Lemma wr_ptr_meta id cl s : cellmeta id cl s -> negb (dt_is (c_type cl) KPtr) = false -> wr id s.
+Proof.
+  intros H C. eapply cellmeta_wr; [exact H|]. right. unfold dt_is in C. apply negb_false_iff in C. apply dk_eqb_eq in C. rewrite C. reflexivity.
+Qed.
+Lemma resok_payload r p s : resok r s -> r_val r = Some p -> valok p s.
+Proof. intros H E. apply H. exact E. Qed.
+Lemma resok_kind r p s : resok r s -> r_val r = Some p -> payload_kind p = dk (r_type r).
+Proof. intros H E. apply H. exact E. Qed.
+Lemma resok_named r p s : resok r s -> r_val r = Some p -> named_ok p (r_type r).
+Proof. intros H E. apply H. exact E. Qed.
+Lemma newvar_wr0 name ty owner id s : newvar_post name ty false owner id s -> wr id s.
+Proof. intros [p [H _]]. eapply cellmeta_wr; [exact H|left; reflexivity]. Qed.
+Lemma newvar_fits name ty cst owner id v s : newvar_post name ty cst owner id s -> payload_kind v = dk ty -> named_ok v ty -> fits id v s.
+Proof. intros [p [H _]] E Hn. eapply cellmeta_fits; [exact H|exact E|exact Hn]. Qed.
+
 Section Level3.
 Variables (ped repl : bool) (lim : limits) (self : evs).
 Hypothesis He : forall (P : st -> Prop) n c, stable P -> tr P (ev_eval self n c) (fun r s => resok r s).
@@ -27,19 +48,24 @@ Ltac hknown := first [ apply hn_lookup_def | apply hn_lookup_def_aux | apply hn_
 
 
 Ltac kind_facts :=
+  unfold dt_is in *;
   repeat match goal with
-         | H : dt_is _ _ = true |- _ => apply dk_eqb_eq in H
-         | H : negb (dt_is _ _) = false |- _ => apply negb_false_iff in H
+         | H : negb _ = false |- _ => apply negb_false_iff in H
          | H : dk_eqb _ _ = true |- _ => apply dk_eqb_eq in H
          | H : _ && _ = true |- _ => apply andb_prop in H; destruct H
          | H : _ || _ = false |- _ => apply orb_false_elim in H; destruct H
          end.
-Ltac kind_tac := cbn; first [ reflexivity | assumption | congruence | (unfold dt_is in *; kind_facts; cbn in *; first [assumption | congruence | (symmetry; assumption)]) ].
+Ltac kind_tac := cbn; first [ reflexivity | assumption | congruence | (eapply resok_kind; eassumption)
+                            | (kind_facts; cbn in *; first [assumption | congruence | (symmetry; assumption)]) ].
+Ltac name_tac := cbn; first [ assumption | (eapply resok_named; eassumption) | (eapply named_ok_pname; [eassumption | eassumption])
+                            | (apply named_ok_prim; first [reflexivity | assumption])
+                            | (let tn := fresh "tn" in let Hn := fresh "Hn" in intros tn Hn; cbn in *; first [discriminate Hn | congruence | (inversion Hn; subst; first [reflexivity | assumption | congruence])]) ].
 Ltac resok_leaf :=
   let a := fresh "a" in let s := fresh "s" in let HPs := fresh "HPs" in let p := fresh "p" in let E := fresh "E" in
   intros a s [-> HPs] p E; cbn in E;
   first [ discriminate E
-        | (inversion E; subst; decompose [and] HPs; split; [ first [ (apply valok_nonrec; intros; discriminate) | eauto ] | kind_tac ]) ].
+        | (decompose [and] HPs; match goal with H : resok _ _ |- _ => exact (H _ E) end)
+        | (inversion E; subst; decompose [and] HPs; split; [ first [ (apply valok_nonrec; intros; discriminate) | eauto ] | split; [ kind_tac | name_tac ] ]) ].
 
 Ltac ht known :=
   repeat first
@@ -84,12 +110,12 @@ Lemma tr_eval_cmp (P : st -> Prop) t c l r : stable P -> tr P (eval_cmp t c l r)
 Proof. intros SP. unfold eval_cmp. cbv zeta. ht evk. Qed.
 
 
-Lemma tr_cast_prim (P : st -> Prop) t c p target : stable P -> tr P (cast_prim t c p target) (fun p' s => (forall tn k, p' <> PRec tn k) /\ payload_kind p' = target).
+Lemma tr_cast_prim (P : st -> Prop) t c p target : stable P -> tr P (cast_prim t c p target) (fun p' s => (forall tn k, p' <> PRec tn k) /\ payload_kind p' = target /\ pname p' = None).
 Proof.
   intros SP. unfold cast_prim.
   repeat first [ apply tr_rt_error | apply tr_failm
                | match goal with
-                 | |- tr _ (ret _) _ => eapply tr_post; [apply tr_ret | intros ? ? [-> _]; split; [intros ? ?; discriminate|reflexivity]]
+                 | |- tr _ (ret _) _ => eapply tr_post; [apply tr_ret | intros ? ? [-> _]; split; [intros ? ?; discriminate|split; reflexivity]]
                  | |- tr _ (bind _ _) _ => eapply tr_bind with (Q := fun _ _ => True); [stab2 | apply tr_hn_true; [stab2 | unfold prim_to_string; hnt hknown] | intros ?]
                  | |- tr _ (match ?x with _ => _ end) _ => destruct x
                  end ].
@@ -108,22 +134,3 @@ Qed.
 Lemma tr_as_payload (P : st -> Prop) r : tr P (as_payload r) (fun p s => r_val r = Some p).
 Proof. unfold as_payload. destruct (r_val r) as [p|]; [eapply tr_post; [apply tr_ret|]; intros a s [-> _]; reflexivity|apply tr_failm]. Qed.
 End Level3.
-
-Lemma own_from_newvar name ty cst c id s cx : newvar_post name ty cst c id s -> nm_get c (s_ctxs s) = Some cx -> x_isrec cx = true -> ownrec id s.
-Proof. intros [p H] E F. eapply cellmeta_ownrec; [exact H|]. cbn. exists cx. auto. Qed.
-Lemma own_from_cellmeta id cl c s cx : cellmeta id cl s -> c_owner cl = c -> nm_get c (s_ctxs s) = Some cx -> x_isrec cx = true -> ownrec id s.
-Proof. intros H <- E F. eapply cellmeta_ownrec; [exact H|]. exists cx. auto. Qed.
-Lemma wr_nonconst_meta id cl s : cellmeta id cl s -> c_const cl = false -> wr id s.
-Proof. intros H C. eapply cellmeta_wr; eauto. Qed.
-Lemma wr_ptr_meta id cl s : cellmeta id cl s -> negb (dt_is (c_type cl) KPtr) = false -> wr id s.
-Proof.
-  intros H C. eapply cellmeta_wr; [exact H|]. right. unfold dt_is in C. apply negb_false_iff in C. apply dk_eqb_eq in C. rewrite C. reflexivity.
-Qed.
-Lemma resok_payload r p s : resok r s -> r_val r = Some p -> valok p s.
-Proof. intros H E. apply H. exact E. Qed.
-Lemma resok_kind r p s : resok r s -> r_val r = Some p -> payload_kind p = dk (r_type r).
-Proof. intros H E. apply H. exact E. Qed.
-Lemma newvar_wr0 name ty owner id s : newvar_post name ty false owner id s -> wr id s.
-Proof. intros [p H]. eapply cellmeta_wr; [exact H|left; reflexivity]. Qed.
-Lemma newvar_fits name ty cst owner id v s : newvar_post name ty cst owner id s -> payload_kind v = dk ty -> fits id v s.
-Proof. intros [p H] E. eapply cellmeta_fits; [exact H|exact E]. Qed.
